@@ -1,6 +1,7 @@
 import Gaftools.Props.C01b
 import Gaftools.Props.TieA
 import Gaftools.Props.Glue
+import Gaftools.Props.Reflect
 #print axioms Gaftools.TieA.mergeNodes_gen_eq_model
 #print axioms Gaftools.C01.contigSlice_node
 #print axioms Gaftools.C01.contigSlice_append
@@ -26,3 +27,7 @@ import Gaftools.Props.Glue
 #print axioms Gaftools.Glue.parse_render_bare
 #print axioms Gaftools.TieA.searchIv_gen_eq_model
 #print axioms Gaftools.TieA.overlapCaseConv_gen_eq_model
+#print axioms Gaftools.Reflect.segsOf_eq
+#print axioms Gaftools.Reflect.validRGFAB_sound
+#print axioms Gaftools.Reflect.validRGFAB_tagged
+#print axioms Gaftools.Reflect.validRGFAB_complete
